@@ -268,6 +268,30 @@ func (c *cenv) eval(x ast.Expr) cval {
 		}
 		c.fail("unknown identifier %s", n.Name)
 	case *ast.SelectorExpr:
+		if id, ok := n.X.(*ast.Ident); ok {
+			if _, bound := c.bound[id.Name]; !bound && c.pkg.Scope().Lookup(id.Name) == nil {
+				if ip := findImport(c.pkg, id.Name); ip != nil {
+					key := id.Name + "." + n.Sel.Name
+					if v, ok := c.bound[key]; ok {
+						return v
+					}
+					switch ob := ip.Scope().Lookup(n.Sel.Name).(type) {
+					case *types.Var:
+						v, err := c.w.globalConst(ob)
+						if err != nil {
+							c.fail("%v", err)
+						}
+						c.bound[key] = v
+						return v
+					case *types.Const:
+						if i, ok := constant.Int64Val(constant.ToInt(ob.Val())); ok {
+							return i
+						}
+					}
+					c.fail("unknown %s.%s", id.Name, n.Sel.Name)
+				}
+			}
+		}
 		v := c.eval(n.X)
 		if s, ok := v.(cstruct); ok {
 			if f, ok := s[n.Sel.Name]; ok {
@@ -445,6 +469,19 @@ func (c *cenv) eval(x ast.Expr) cval {
 			return c.eval(n.Args[2])
 		case "pair":
 			return carray{c.eval(n.Args[0]), c.eval(n.Args[1])}
+		case "disjointTables":
+			// exact disjointness of two unicode.RangeTable literals (strides honoured, by enumeration)
+			a := tableMembers(c, c.eval(n.Args[0]))
+			for r := range tableMembers(c, c.eval(n.Args[1])) {
+				if a[r] {
+					c.witness = fmt.Sprintf("common rune U+%04X", r)
+					return false
+				}
+			}
+			return true
+		case "wellFormedTable":
+			// the precondition of unicode.Is: ranges sorted, non-overlapping, Lo <= Hi, Stride >= 1, R16 below R32
+			return tableWellFormed(c, c.eval(n.Args[0]))
 		}
 		c.fail("unknown function %s in data invariant", id.Name)
 	}
@@ -583,4 +620,120 @@ func allFuncs(w *World) map[*ssa.Function]bool {
 		}
 	}
 	return m
+}
+
+// globalByRid maps the region constant of a global variable back to the global.
+func (w *World) globalByRid(rid Term) *ssa.Global {
+	n, ok := parseModelIntPublic(rid.S)
+	if !ok {
+		return nil
+	}
+	for g, id := range w.globals {
+		if int64(id) == n {
+			return g
+		}
+	}
+	return nil
+}
+
+func parseModelIntPublic(s string) (int64, bool) {
+	if n, ok := parseModelInt(s); ok && n.IsInt64() {
+		return n.Int64(), true
+	}
+	return 0, false
+}
+
+// constPtrID: stable id of a global pointer variable that is a constant address (see Engine.constPointerGlobal).
+func (w *World) constPtrID(g *ssa.Global) (int, bool) {
+	if w.constPtr == nil {
+		w.constPtr = map[*ssa.Global]int{}
+	}
+	if id, ok := w.constPtr[g]; ok {
+		return id, id > 0
+	}
+	w.constPtr[g] = 0
+	v, ok := g.Object().(*types.Var)
+	if !ok || g.Pkg == nil {
+		return 0, false
+	}
+	pkg := w.pkgs[g.Pkg.Pkg.Path()]
+	if pkg == nil {
+		return 0, false
+	}
+	isAddrLit := false
+	for _, f := range pkg.Syntax {
+		for _, d := range f.Decls {
+			gd, ok := d.(*ast.GenDecl)
+			if !ok || gd.Tok != token.VAR {
+				continue
+			}
+			for _, sp := range gd.Specs {
+				vs := sp.(*ast.ValueSpec)
+				for i, n := range vs.Names {
+					if pkg.TypesInfo.Defs[n] == v && i < len(vs.Values) {
+						if ue, ok := vs.Values[i].(*ast.UnaryExpr); ok && ue.Op == token.AND {
+							if _, ok := ue.X.(*ast.CompositeLit); ok {
+								isAddrLit = true
+							}
+						}
+					}
+				}
+			}
+		}
+	}
+	if !isAddrLit || len(w.writersOf(v)) > 0 {
+		return 0, false
+	}
+	w.nconstPtr++
+	w.constPtr[g] = w.nconstPtr
+	return w.nconstPtr, true
+}
+
+func tableRanges(c *cenv, v cval) [][3]int64 {
+	t, ok := v.(cstruct)
+	if !ok {
+		c.fail("not a RangeTable literal")
+	}
+	var out [][3]int64
+	for _, f := range []string{"R16", "R32"} {
+		arr, _ := t[f].(carray)
+		for _, e := range arr {
+			r := e.(cstruct)
+			out = append(out, [3]int64{r["Lo"].(int64), r["Hi"].(int64), r["Stride"].(int64)})
+		}
+	}
+	return out
+}
+
+func tableMembers(c *cenv, v cval) map[int64]bool {
+	m := map[int64]bool{}
+	for _, r := range tableRanges(c, v) {
+		st := r[2]
+		if st < 1 {
+			st = 1
+		}
+		for x := r[0]; x <= r[1]; x += st {
+			m[x] = true
+			c.steps++
+		}
+	}
+	return m
+}
+
+func tableWellFormed(c *cenv, v cval) bool {
+	t := v.(cstruct)
+	prevHi := int64(-1)
+	for _, f := range []string{"R16", "R32"} {
+		arr, _ := t[f].(carray)
+		for _, e := range arr {
+			r := e.(cstruct)
+			lo, hi, st := r["Lo"].(int64), r["Hi"].(int64), r["Stride"].(int64)
+			if lo > hi || st < 1 || lo <= prevHi || (f == "R16" && hi > 0xffff) || (f == "R32" && lo < 0x10000) || (hi-lo)%st != 0 {
+				c.witness = fmt.Sprintf("range %#x-%#x stride %d", lo, hi, st)
+				return false
+			}
+			prevHi = hi
+		}
+	}
+	return true
 }
